@@ -3,7 +3,7 @@
 import json
 
 import stages
-from stages import calls, events_trace, guard, harness_calls, mc, product, streams, tla_set
+from stages import calls, events_trace, generated_streams, guard, harness_calls, mc, product, streams, tla_set
 from vlib import log
 
 ALLK = ["std", "lf", "ll"]
@@ -122,13 +122,14 @@ def c06(ck, thorough):
        {"Sigma": tla_set([0, 1, 2]), "NybbleBase": 2, "MaxPats": 2, "MaxPatLen": 3 if thorough else 2,
         "MaxHay": 6 if thorough else 4, "Vs": tla_set([2, 4]), "Bs": tla_set([2, 3] if thorough else [2]),
         "Kinds": tla_set(["lf", "ll"])},
-       ["PackedCorrect", "LoadInBounds", "MatchInSpan", "Coverage"], view="View")
+       ["PackedCorrect", "LoadInBounds", "MatchInSpan", "Coverage", "CarryAdjacent"], view="View")
     calls(ck, "c06_packed", "all", scale=4 if thorough else 1, sub="packed")
 
 
 def c07(ck, thorough):
     """stream search = in-memory search for every read schedule and capacity"""
     mc(ck, "ACStream", "c07_stream", stream_consts(thorough, False), STREAM_INV)
+    generated_streams(ck, "c07_gen", maxstream=4 if thorough else 3, faults=False)
     streams(ck, "c07_enum", "enum", maxstream=5 if thorough else 4, sizes="1,2,3")
     streams(ck, "c07_rand", "rand", scale=12 if thorough else 2)
 
@@ -136,6 +137,7 @@ def c07(ck, thorough):
 def c08(ck, thorough):
     """stream replacement reproduces the stream outside matches"""
     mc(ck, "ACStream", "c08_stream", stream_consts(thorough, False), STREAM_INV)
+    generated_streams(ck, "c08_gen", maxstream=4 if thorough else 3, faults=False)
     streams(ck, "c08_enum", "enum", maxstream=5 if thorough else 4, sizes="1,2,4")
     streams(ck, "c08_rand", "rand", scale=12 if thorough else 2)
 
@@ -143,6 +145,7 @@ def c08(ck, thorough):
 def c18(ck, thorough):
     """I/O failures surface as errors and never corrupt what was produced"""
     mc(ck, "ACStream", "c18_stream", stream_consts(thorough, True), STREAM_INV)
+    generated_streams(ck, "c18_gen", maxstream=4 if thorough else 3, faults=True)
     streams(ck, "c18_enum", "enum", faults=True, maxstream=4 if thorough else 3, sizes="1,3")
     streams(ck, "c18_rand", "rand", faults=True, scale=12 if thorough else 2)
 
@@ -330,5 +333,101 @@ def replay(pid, path):
 
 
 def selftest():
-    log("selftest: not implemented yet")
-    return 0
+    """Binding / teeth demonstrations: each must be DETECTED. Exit 0 iff all are."""
+    import os
+    import shutil
+    import subprocess
+    from vlib import BIN, SPEC, WORK, build_harness, run_harness, run_tlc, workdir, read_ndjson_line
+    build_harness()
+    wd = workdir("selftest")
+    results = {}
+
+    # 1. flip one transition of a real dump -> the product exploration must find the pair
+    pre = os.path.join(wd, "d")
+    run_harness(["dump", "--families", "f22", "--out", pre, "--shards", 1, "--mks", "std"])
+    lines = open(pre + ".0.ndjson").read().splitlines()
+    d = json.loads(lines[200])
+    st = d["states"][d["startU"] - 1]
+    st["rowU"][0] = (st["rowU"][0] % len(d["states"])) + 1
+    lines[200] = json.dumps(d)
+    open(pre + ".bad.ndjson", "w").write("\n".join(lines) + "\n")
+    r = run_tlc("Prod", os.path.join(SPEC, "Prod.cfg"), "st_prod", env={"DUMP": pre + ".bad.ndjson"}, workers=4)
+    results["corrupted dump entry reported by Prod"] = any(
+        x["ctx"] == 201 and not x["kind"].startswith("drift") for x in r.tagged("DISAGREE"))
+
+    # 2. change one recorded result -> TraceCalls must reject that line
+    pre = os.path.join(wd, "c")
+    run_harness(["calls", "--family", "rand", "--out", pre, "--shards", 1, "--mks", "lf", "--an", "no",
+                 "--flav", "find"])
+    lines = open(pre + ".0.ndjson").read().splitlines()
+    idx = next(i for i, l in enumerate(lines) if '"multi"' in l and '"find",false,false,"ok",[' in l
+               and '"ok",[]' not in l)
+    e = json.loads(lines[idx])
+    for c in e["calls"]:
+        if c[0] == "find" and c[4]:
+            c[4][2] += 1
+            break
+    lines[idx] = json.dumps(e)
+    open(pre + ".bad.ndjson", "w").write("\n".join(lines) + "\n")
+    r = run_tlc("TraceCalls", os.path.join(SPEC, "TraceCalls.cfg"), "st_calls",
+                env={"TRACE": pre + ".bad.ndjson"}, workers=2)
+    results["corrupted call result rejected by TraceCalls"] = any(x["line"] == idx + 1 for x in r.tagged("REJECT"))
+
+    # 3. corrupt the free space of a recorded read, drop the closure calls of another run
+    pre = os.path.join(wd, "s")
+    run_harness(["stream", "--family", "enum", "--out", pre, "--shards", 1, "--maxstream", 3, "--sizes", "1,2"])
+    lines = open(pre + ".0.ndjson").read().splitlines()
+    done = set()
+    want = {}
+    for i, l in enumerate(lines):
+        e = json.loads(l)
+        if e.get("ev") != "stream" or e["mode"] != "replace" or e["end"] != "ok":
+            continue
+        if "read" not in done and any(o[0] == "r" and o[2] > 0 for o in e["ops"]):
+            next(o for o in e["ops"] if o[0] == "r")[1] += 1
+            lines[i] = json.dumps(e)
+            done.add("read")
+            want["read"] = i + 1
+        elif "drop" not in done and any(o[0] == "m" for o in e["ops"]):
+            e["ops"] = [o for o in e["ops"] if o[0] != "m"]
+            lines[i] = json.dumps(e)
+            done.add("drop")
+            want["drop"] = i + 1
+        if len(done) == 2:
+            break
+    open(pre + ".bad.ndjson", "w").write("\n".join(lines) + "\n")
+    r = run_tlc("TraceStream", os.path.join(SPEC, "TraceStream.cfg"), "st_stream",
+                env={"TRACE": pre + ".bad.ndjson"}, workers=2)
+    rej = {x["line"] for x in r.tagged("REJECT")}
+    results["corrupted read size / dropped closure events rejected by TraceStream"] = \
+        want["read"] in rej and want["drop"] in rej
+
+    # 4. the guard pages are armed
+    p = subprocess.run([BIN, "guard", "--out", os.path.join(wd, "g"), "--shards", "1", "--poke", "true"],
+                       stdout=subprocess.PIPE, stderr=subprocess.PIPE)
+    cur = json.load(open(os.path.join(wd, "g.current")))
+    results["read one byte past a flush-right haystack kills the child and is attributed"] = \
+        p.returncode == -11 and cur.get("poke") is True
+
+    # 5. the model has teeth: un-repair F1 in a scratch copy of the specification
+    sd = os.path.join(wd, "spec")
+    shutil.copytree(SPEC, sd)
+    a = open(os.path.join(sd, "ACAutomaton.tla")).read()
+    a2 = a.replace("THEN (IF Leftmostish(K) /\\ RootMatches(P, K) THEN DEAD ELSE Root)\n         ELSE Walk",
+                   "THEN Root\n         ELSE Walk")
+    assert a != a2
+    open(os.path.join(sd, "ACAutomaton.tla"), "w").write(a2)
+    cfg = stages.write_cfg("st_model", constants=search_consts(["lf"], [False], [False], [False], False),
+                           invariants=["Correct"])
+    p = subprocess.run(["java", "-Xss512m", "-cp", "/opt/veriftools/tla/tla2tools.jar:/opt/veriftools/tla/CommunityModules-deps.jar",
+                        "tlc2.TLC", "-workers", "8", "-metadir", os.path.join(wd, "md"), "-noGenerateSpecTE",
+                        "-config", cfg, "ACSearch.tla"], cwd=sd, stdout=subprocess.PIPE, stderr=subprocess.STDOUT, text=True)
+    results["un-repaired F1 in the specification violates ACSearch!Correct"] = "Invariant Correct is violated" in p.stdout
+
+    ok = all(results.values())
+    for k, v in results.items():
+        log(("DETECTED  " if v else "MISSED    ") + k)
+    os.makedirs(os.path.join(os.path.dirname(SPEC), "evidence"), exist_ok=True)
+    json.dump({"selftest": results, "all_detected": ok},
+              open(os.path.join(os.path.dirname(SPEC), "evidence", "selftest.json"), "w"), indent=1)
+    return 0 if ok else 1
